@@ -69,6 +69,8 @@ pub trait Inst: Sized {
     const MULTI: bool;
     /// name of the close-like op (first token), if the object has one
     const CLOSE: &'static str;
+    /// ops that the waiting task performs itself (it is awake: its sleeper entry is void), as task 0
+    const OWNER_OPS: &'static [&'static str] = &[];
     fn new(rng: &mut Rng) -> Self;
     /// a random op (text); `single`: only task 0 polls
     fn gen_op(&self, rng: &mut Rng, single: bool) -> String;
@@ -119,7 +121,8 @@ fn run_case<I: Inst>(sink: &mut Sink, id: &str, ops: &mut dyn FnMut(&I, usize) -
         if toks[0] == I::CLOSE {
             for s in &slp {
                 if !wakes.contains(&s.waker) && (I::MULTI || !s.others_polled) {
-                    sink.monitor_fail(&format!("close-no-wake:{}", I::NAME), &format!("{} did not wake waker {} of task {} which is asleep in `{}`", op, s.waker, s.task, s.op));
+                    let key = if s.others_polled { format!("close-no-wake:{}:multi-task", I::NAME) } else { format!("close-no-wake:{}", I::NAME) };
+                    sink.monitor_fail(&key, &format!("{} did not wake waker {} of task {} which is asleep in `{}`", op, s.waker, s.task, s.op));
                 }
             }
         }
@@ -138,6 +141,10 @@ fn run_case<I: Inst>(sink: &mut Sink, id: &str, ops: &mut dyn FnMut(&I, usize) -
         } else if toks[0] == "dropfut" {
             let t: usize = toks[1].parse().unwrap();
             slp.retain(|s| s.task != t);
+        } else if I::OWNER_OPS.contains(&toks[0]) {
+            // the single owner acted: it is awake (in the multi-task stress mode of a single-owner API every
+            // task index stands for that owner)
+            if I::MULTI { slp.retain(|s| s.task != 0); } else { slp.clear(); }
         }
         if !wakes.is_empty() {
             interesting = true;
@@ -210,7 +217,7 @@ pub fn run_inst<I: Inst>(o: &Opts) {
     }
     // exhaustive small scope
     let alpha = I::alphabet();
-    let budget: u64 = if o.thorough() { 1_000_000 } else { 30_000 };
+    let budget: u64 = if o.thorough() { 400_000 } else { 30_000 };
     let mut maxlen = 1usize;
     {
         let mut total = alpha.len() as u64;
